@@ -20,6 +20,8 @@ def finding_for(known, pid, h, r):
             continue
         if 'meta' in m and any(h.meta.get(k) != v for k, v in m['meta'].items()):
             continue
+        if 'any_meta' in m and not any(all(h.meta.get(k) == v for k, v in alt.items()) for alt in m['any_meta']):
+            continue
         if 'failed_check' in m and not any(re.search(m['failed_check'], c) for c in r.get('failed_checks', [])):
             continue
         if 'replay' in m and not any(re.search(m['replay'], str(v)) for v in (r.get('replay') or {}).values()):
@@ -197,7 +199,7 @@ def main(argv=None):
         'unexplored': unexplored[:60],
         'unlocated': unlocated,
         'sliced_verbatim': sliced,
-        'harnesses': [{'name': h.name, 'note': h.note, 'unwind': h.unwind, 'stubs': [s[0] for s in h.stubs]} for h, _ in results],
+        'harnesses': [{'name': h.name, 'note': h.note, 'unwind': h.unwind, 'stubs': [s[0] for s in h.stubs], 'status': r['status'], 'seconds': r['seconds']} for h, r in results],
         'exhaustive': False,
     }
     assumptions = ['Kani 0.68 / CBMC 6.11 (cadical) are sound for the compiled harness; harnesses model the dev profile (overflow checks on); counterexamples are replayed natively in dev and release',
